@@ -271,7 +271,7 @@ def compare(m, d, ctx):
             gv = g.vias
             eq(f'{key} {n["name"]} via types', sorted(k for k in gv if gv[k]), sorted(vias))
             for k in vias:
-                eq(f'{key} {n["name"]} vias[{k}]', sorted(tuple(x) for x in gv[k]), sorted(vias[k]))
+                eq(f'{key} {n["name"]} vias[{k}]', sorted((tuple(x) for x in gv[k]), key=repr), sorted(vias[k], key=repr))
             gw = g.wires
             eq(f'{key} {n["name"]} wire layers', sorted(k for k in gw if gw[k] and k != 'metal9'), sorted(wires))
             for layer in wires:
